@@ -837,45 +837,45 @@ func (r *c15Result) addViol(sig, msg string, obs interface{}) {
 
 // stageEvent mutates model + caches like the informer's store update and returns the handler call(s) the informer
 // would make for it (possibly later: a shared informer updates its store before its listeners run).
-func stageEvent(e *env, m *Cluster, ev Event) func() *panicInfo {
-	nop := func() *panicInfo { return nil }
+func stageEvent(e *env, m *Cluster, ev Event) (string, func() *panicInfo) {
+	nopf := func() *panicInfo { return nil }
 	switch ev.Kind {
 	case "policy-add", "policy-update":
 		if ev.Policy == nil {
-			return nop
+			return "none", nopf
 		}
 		np := ev.Policy.toAPI()
 		if old := m.policy(ev.Policy.NS, ev.Policy.Name); old != nil {
 			oldAPI := old.toAPI()
 			*old = *ev.Policy
 			_ = e.w.pols.Update(np)
-			return func() *panicInfo { return guarded(func() { _ = e.pm.UpdatePolicy(oldAPI, np) }) }
+			return "UpdatePolicy", func() *panicInfo { return guarded(func() { _ = e.pm.UpdatePolicy(oldAPI, np) }) }
 		}
 		m.Policies = append(m.Policies, *ev.Policy)
 		_ = e.w.pols.Add(np)
-		return func() *panicInfo { return guarded(func() { _ = e.pm.AddPolicy(np) }) }
+		return "AddPolicy", func() *panicInfo { return guarded(func() { _ = e.pm.AddPolicy(np) }) }
 	case "policy-delete":
 		if ev.Policy == nil {
-			return nop
+			return "none", nopf
 		}
 		for i := range m.Policies {
 			if m.Policies[i].NS == ev.Policy.NS && m.Policies[i].Name == ev.Policy.Name {
 				old := m.Policies[i].toAPI()
 				m.Policies = append(m.Policies[:i], m.Policies[i+1:]...)
 				_ = e.w.pols.Delete(old)
-				return func() *panicInfo { return guarded(func() { _ = e.pm.DeletePolicy(old) }) }
+				return "DeletePolicy", func() *panicInfo { return guarded(func() { _ = e.pm.DeletePolicy(old) }) }
 			}
 		}
 	case "pod-add", "pod-update":
 		if ev.Pod == nil || m.ns(ev.Pod.NS) == nil {
-			return nop
+			return "none", nopf
 		}
 		if old := m.pod(ev.Pod.NS, ev.Pod.Name); old != nil {
 			oldAPI := old.toAPI()
 			*old = *ev.Pod
 			newAPI := ev.Pod.toAPI()
 			_ = e.w.pods.Update(newAPI)
-			return func() *panicInfo { return guarded(func() { _ = e.pm.UpdatePod(oldAPI, newAPI) }) }
+			return "UpdatePod", func() *panicInfo { return guarded(func() { _ = e.pm.UpdatePod(oldAPI, newAPI) }) }
 		}
 		// a pod appears without an address first, then gets one
 		m.Pods = append(m.Pods, *ev.Pod)
@@ -887,7 +887,7 @@ func stageEvent(e *env, m *Cluster, ev Event) func() *panicInfo {
 		if ev.Pod.IP != "" {
 			_ = e.w.pods.Update(newAPI)
 		}
-		return func() *panicInfo {
+		return "UpdatePod", func() *panicInfo {
 			if pi := guarded(func() { _ = e.pm.AddPod(pendingAPI) }); pi != nil {
 				return pi
 			}
@@ -898,19 +898,19 @@ func stageEvent(e *env, m *Cluster, ev Event) func() *panicInfo {
 		}
 	case "pod-delete":
 		if ev.Pod == nil {
-			return nop
+			return "none", nopf
 		}
 		for i := range m.Pods {
 			if m.Pods[i].NS == ev.Pod.NS && m.Pods[i].Name == ev.Pod.Name {
 				old := m.Pods[i].toAPI()
 				m.Pods = append(m.Pods[:i], m.Pods[i+1:]...)
 				_ = e.w.pods.Delete(old)
-				return func() *panicInfo { return guarded(func() { _ = e.pm.DeletePod(old) }) }
+				return "DeletePod", func() *panicInfo { return guarded(func() { _ = e.pm.DeletePod(old) }) }
 			}
 		}
 	case "ns-relabel":
 		if ev.NS == nil {
-			return nop
+			return "none", nopf
 		}
 		if n := m.ns(ev.NS.Name); n != nil {
 			n.Labels = copyLabels(ev.NS.Labels)
@@ -918,25 +918,25 @@ func stageEvent(e *env, m *Cluster, ev Event) func() *panicInfo {
 		}
 	case "sync-pod-chains", "sync-pod-ipset":
 		if ev.Pod == nil {
-			return nop
+			return "none", nopf
 		}
 		p := m.pod(ev.Pod.NS, ev.Pod.Name)
 		if p == nil {
-			return nop
+			return "none", nopf
 		}
 		api := p.toAPI()
 		if ev.Kind == "sync-pod-chains" {
 			if !p.onNode() {
-				return nop
+				return "none", nopf
 			}
-			return func() *panicInfo { return guarded(func() { _ = e.pm.SyncPodChains(api) }) }
+			return "SyncPodChains", func() *panicInfo { return guarded(func() { _ = e.pm.SyncPodChains(api) }) }
 		}
 		if p.IP == "" {
-			return nop
+			return "none", nopf
 		}
-		return func() *panicInfo { return guarded(func() { e.pm.SyncPodIPInIPSet(api, true) }) }
+		return "SyncPodIPInIPSet", func() *panicInfo { return guarded(func() { e.pm.SyncPodIPInIPSet(api, true) }) }
 	}
-	return nop
+	return "none", nopf
 }
 
 // panicSig names a recovered panic by the innermost galaxy function and, where the policy set explains it, by the
@@ -958,6 +958,17 @@ func panicSig(pi *panicInfo, ever []Policy) string {
 		}
 	}
 	return "c15-panic-in-" + pi.Func + shape
+}
+
+func historySuffix(cs *C15Case) string {
+	switch {
+	case cs.After != nil || len(cs.Stale) > 0 || cs.Perturb > 0:
+		return ""
+	case cs.CacheAhead > 0:
+		return "-after-cache-ahead-events"
+	default:
+		return "-after-delivered-events"
+	}
 }
 
 // secondSyncVerb renames a difference category (second state vs first state) into what the second sync did.
@@ -1036,11 +1047,17 @@ func evalC15(cs *C15Case) *c15Result {
 		ever = append(ever, cs.After.Policies...)
 	}
 
+	// hist names how the state the checked full sync starts from came about. "" : the caches changed without (all)
+	// events reaching the handlers, or leftovers were planted / state was perturbed - the situations the listed
+	// full-sync findings are about. Otherwise every change was delivered to its handler, so whatever the full sync
+	// still finds wrong was left behind by the handlers themselves.
+	hist := historySuffix(cs)
+
 	// judgeRejects classifies the rejected commands of one entry-point call. It returns true when the policy batch of
 	// that call was rejected because of `-X` of a still referenced stale policy chain: what else goes wrong in the same
 	// call (pod-chain batches jumping to policy chains that batch would have created, stale sets that stay referenced)
 	// is downstream of that rejection and only counted.
-	judgeRejects := func(rjs []fakes.Reject, phase string, ctx *rejCtx) (staleX bool) {
+	judgeRejects := func(rjs []fakes.Reject, phase, suffix string, ctx *rejCtx) (staleX bool) {
 		for _, rj := range rjs {
 			if strings.HasPrefix(rejectBase(rj, ctx), sigStaleX) {
 				staleX = true
@@ -1056,7 +1073,7 @@ func evalC15(cs *C15Case) *c15Result {
 				res.counters["downstream_of_rejected_policy_batch:"+strings.TrimPrefix(base, "c15-")]++
 				continue
 			}
-			res.addViol(base, fmt.Sprintf("%s: rejected command [%s] %s: %s", phase, rj.Kind, rj.Op, rj.Reason),
+			res.addViol(base+suffix, fmt.Sprintf("%s: rejected command [%s] %s: %s", phase, rj.Kind, rj.Op, rj.Reason),
 				map[string]interface{}{"phase": phase, "rejected": rejectLines([]fakes.Reject{rj}),
 					"filter_before_the_call": filterLines(ctx)})
 		}
@@ -1073,7 +1090,7 @@ func evalC15(cs *C15Case) *c15Result {
 		if pi := e.fullSync(); pi != nil {
 			res.addViol(panicSig(pi, ever), "full sync panicked: "+pi.Value, pi)
 		}
-		judgeRejects(e.takeRejects(), "initial-sync", ctx)
+		judgeRejects(e.takeRejects(), "initial-sync", "-in-initial-sync", ctx)
 		res.counters["full_syncs"]++
 	}
 	// events: the caches run CacheAhead events ahead of the handlers (0: handler i sees exactly the state after event i)
@@ -1083,8 +1100,10 @@ func evalC15(cs *C15Case) *c15Result {
 			j = len(cs.Events)
 		}
 		var deliver []func() *panicInfo
+		var handler []string
 		for k := i; k < j; k++ {
-			deliver = append(deliver, stageEvent(e, model, cs.Events[k]))
+			h, d := stageEvent(e, model, cs.Events[k])
+			handler, deliver = append(handler, h), append(deliver, d)
 		}
 		for k := i; k < j; k++ {
 			ev := cs.Events[k]
@@ -1099,7 +1118,11 @@ func evalC15(cs *C15Case) *c15Result {
 					map[string]interface{}{"event_index": k, "panic": pi})
 				res.counters["event_panics"]++
 			}
-			judgeRejects(e.takeRejects(), "event-"+ev.Kind, ctx)
+			suffix := "-in-" + handler[k-i] + "-handler"
+			if cs.CacheAhead > 0 {
+				suffix += "-cache-ahead"
+			}
+			judgeRejects(e.takeRejects(), "event-"+ev.Kind+" ("+handler[k-i]+")", suffix, ctx)
 		}
 		i = j
 	}
@@ -1161,7 +1184,7 @@ func evalC15(cs *C15Case) *c15Result {
 	}
 	res.counters["full_syncs"]++
 	rej1 := e.takeRejects()
-	staleX1 := judgeRejects(rej1, "full-sync", ctx)
+	staleX1 := judgeRejects(rej1, "full-sync", hist, ctx)
 	got1 := observeGLX(e)
 	items1 := diffGLX(got1, want, model)
 	dump1 := [4]string{e.ipt.Dump("filter"), e.ipt.Dump("nat"), e.ipt.Dump("mangle"), e.sets.Dump()}
@@ -1175,7 +1198,7 @@ func evalC15(cs *C15Case) *c15Result {
 		res.counters["converged_after_1_sync"]++
 	} else if staleX1 {
 		res.counters["nonconverged_after_rejected_policy_batch"]++
-		res.addViol("c15-nonconverged-after-rejected-policy-batch", fmt.Sprintf("after one full sync the GLX state differs from a fresh manager's in %v "+
+		res.addViol("c15-nonconverged-after-rejected-policy-batch"+hist, fmt.Sprintf("after one full sync the GLX state differs from a fresh manager's in %v "+
 			"(the policy batch of this sync was rejected because of -X of a referenced stale policy chain)", catsOf(items1)), obs(items1))
 	} else {
 		for _, c := range catsOf(items1) {
@@ -1185,7 +1208,7 @@ func evalC15(cs *C15Case) *c15Result {
 					sel = append(sel, it)
 				}
 			}
-			res.addViol("c15-nonconverged-"+c, fmt.Sprintf("after one full sync: %s: %s", c, sel[0].Detail), obs(sel))
+			res.addViol("c15-nonconverged-"+c+hist, fmt.Sprintf("after one full sync: %s: %s", c, sel[0].Detail), obs(sel))
 		}
 	}
 
@@ -1196,7 +1219,7 @@ func evalC15(cs *C15Case) *c15Result {
 	}
 	res.counters["full_syncs"]++
 	rej2 := e.takeRejects()
-	staleXLast := judgeRejects(rej2, "second-sync", ctx2)
+	staleXLast := judgeRejects(rej2, "second-sync", hist, ctx2)
 	got2 := observeGLX(e)
 	dump2 := [4]string{e.ipt.Dump("filter"), e.ipt.Dump("nat"), e.ipt.Dump("mangle"), e.sets.Dump()}
 	if dump1 != dump2 {
@@ -1215,7 +1238,7 @@ func evalC15(cs *C15Case) *c15Result {
 				cats = []string{"non-GLX-or-hook-order"}
 			}
 			for _, c := range cats {
-				res.addViol("c15-second-sync-"+secondSyncVerb(c), fmt.Sprintf("second sync changed state: %v", firstN(delta, 3)),
+				res.addViol("c15-second-sync-"+secondSyncVerb(c)+hist, fmt.Sprintf("second sync changed state: %v", firstN(delta, 3)),
 					map[string]interface{}{"changed_by_second_sync": firstN(delta, 12), "filter_after_first": strings.Split(dump1[0], "\n"),
 						"filter_after_second": strings.Split(dump2[0], "\n"), "ipsets_after_first": strings.Split(dump1[3], "\n"),
 						"ipsets_after_second": strings.Split(dump2[3], "\n")})
@@ -1250,7 +1273,7 @@ func evalC15(cs *C15Case) *c15Result {
 				res.counters[fmt.Sprintf("still_after_%d_syncs:%s", maxSyncs, c)]++
 			}
 			if staleXLast {
-				res.addViol("c15-never-converges-policy-batch-rejected-in-every-sync",
+				res.addViol("c15-never-converges-policy-batch-rejected-in-every-sync"+hist,
 					fmt.Sprintf("sync %d still has its policy batch rejected (-X of a referenced stale policy chain); remaining differences %v",
 						maxSyncs, catsOf(items)),
 					map[string]interface{}{"differences_to_fresh_manager": firstN(items, 12),
